@@ -307,6 +307,10 @@ func (x *Executor) Run(r Row) (*Event, error) {
 	if err != nil {
 		return nil, err
 	}
+	env.Conf = r.Lab.Conf
+	if env.Conf == "" {
+		env.Conf = "all"
+	}
 	args, _ := Subst(tpl, env.Replacer(principal)).(map[string]any)
 	argsJSON, _ := json.Marshal(args)
 
@@ -325,6 +329,8 @@ func (x *Executor) Run(r Row) (*Event, error) {
 	ev.Row.Lab.Wire = ev.Real.Wire
 	ev.Real.Backend = backend
 	ev.Row.Lab.Backend = backend
+	ev.Real.Conf = env.Conf
+	ev.Row.Lab.Conf = env.Conf
 	if c, ok := args["content"].(string); ok {
 		ev.ContentSha = Sha([]byte(c))
 		ev.ContentOK = Compiles([]byte(c))
@@ -335,15 +341,28 @@ func (x *Executor) Run(r Row) (*Event, error) {
 	_, isKnown := DocKeys[r.Tool]
 	pidTool := isKnown && hasDocKey(r.Tool, "pid_file")
 	if pidTool && r.Tool != "instance_start" {
-		if victim, err = startVictim(x.Exe, env.PID); err != nil {
-			return nil, err
-		}
-		defer victim.kill()
-		if usesFPID {
-			if fvictim, err = startVictim(x.Exe, env.FPID); err != nil {
+		switch {
+		case env.Conf == "nopid":
+			// no pid file is configured: whatever process a pid file of the arguments names is a foreign one
+			fp := env.PID
+			if usesFPID {
+				fp = env.FPID
+			}
+			if fvictim, err = startVictim(x.Exe, fp); err != nil {
 				return nil, err
 			}
 			defer fvictim.kill()
+		default:
+			if victim, err = startVictim(x.Exe, env.PID); err != nil {
+				return nil, err
+			}
+			defer victim.kill()
+			if usesFPID {
+				if fvictim, err = startVictim(x.Exe, env.FPID); err != nil {
+					return nil, err
+				}
+				defer fvictim.kill()
+			}
 		}
 	}
 	known := map[int]bool{}
@@ -376,14 +395,14 @@ func (x *Executor) Run(r Row) (*Event, error) {
 		server := mcp.NewServer(
 			pinR,
 			poutW,
-			env.Cfg,
-			env.DB,
+			env.ServerCfg(),
+			env.ServerDB(),
 			mcp.WithRole(role),
 			mcp.WithPrincipal(principal),
 			mcp.WithAuditWriter(audit),
 			mcp.WithMutationsEnabled(r.Mut),
 			mcp.WithRuntimeControlEnabled(r.Rc),
-			mcp.WithRuntimeControlPIDFile(env.PID),
+			mcp.WithRuntimeControlPIDFile(env.ServerPID()),
 			mcp.WithRuntimeControlRunBinary(x.Exe),
 			mcp.WithRuntimeControlRunWatch(true),
 			mcp.WithRuntimeControlRunLogLevel("info"),
@@ -396,7 +415,8 @@ func (x *Executor) Run(r Row) (*Event, error) {
 			done <- err
 		}()
 	} else {
-		flags := []string{"mcp", "serve", "--config", env.Cfg, "--db", env.DB, "--role", r.Role, "--pid-file", env.PID, "--run-binary", x.Exe}
+		flags := []string{"mcp", "serve", "--config", env.ServerCfg(), "--db", env.ServerDB(), "--role", r.Role, "--pid-file", env.ServerPID(),
+			"--run-binary", x.Exe}
 		if r.Principal {
 			flags = append(flags, "--principal", principal)
 		}
